@@ -129,10 +129,28 @@ func InitExportingProcess(input ExporterInput) (*ExportingProcess, error) {
 			if !ok {
 				return nil, fmt.Errorf("failed to parse root certificate")
 			}
+			// As documented for ExporterTLSClientConfig (and as tls.Dial does), if
+			// ServerName is empty, the host used to contact the server is used to
+			// check the server certificate. The check is done here because the DTLS
+			// library skips it when the name is empty or an IP address literal.
+			serverName := tlsConfig.ServerName
+			if serverName == "" {
+				host, _, err := net.SplitHostPort(input.CollectorAddress)
+				if err != nil {
+					return nil, err
+				}
+				serverName = host
+			}
 			config := &dtls.Config{
 				RootCAs:              roots,
 				ExtendedMasterSecret: dtls.RequireExtendedMasterSecret,
 				ServerName:           tlsConfig.ServerName,
+				VerifyPeerCertificate: func(_ [][]byte, verifiedChains [][]*x509.Certificate) error {
+					if len(verifiedChains) == 0 || len(verifiedChains[0]) == 0 {
+						return fmt.Errorf("no verified certificate chain for the collector")
+					}
+					return verifiedChains[0][0].VerifyHostname(serverName)
+				},
 			}
 			udpAddr, err := net.ResolveUDPAddr(input.CollectorProtocol, input.CollectorAddress)
 			if err != nil {
